@@ -13,6 +13,7 @@ RULE = ('(a) process programs with waits x sequences of K<=3 (thorough 4) of {pa
         'awaiting 1-3 futures/children x every completion order x placements relative to K<=2 (thorough 3) pause/play requests; "never stays '
         'WAITING forever" is decided as bounded progress to the next quiescent point of a timer-free loop; distinct by (program, plan); '
         'non-trivial when a wake-up and a pause/play were both delivered')
+RULE += ('; also: failing wake-ups (the failure is the wake-up), kills requested and withdrawn around the wake-up, the stepping task cancelled while blocked in the wait and restarted before / after the wake-up')
 ASSUMPTIONS = ['liveness restated as bounded progress at quiescence (deterministic single-threaded loop, no timers)',
                'first accepted resume(v) of a wait defines the expected continuation argument']
 REQUIRED = ['stepping_task_cancelled_in_wait', 'kill_withdrawn_runs', 'wakeups', 'pause_or_play', 'quiescence_checks', 'wakeup_phase/pausing', 'wakeup_phase/paused', 'wc_runs', 'plain_runs', 'continuations_checked']
